@@ -126,7 +126,16 @@ theorem trans_satisfies (v : Dep) (actual required : Version) :
   cases v <;> cases h : compareVersions actual required <;>
     simp [Dep.satisfies, trans_compareVersions, Trans.ordInt, trans_includesVersion, h]
 
-/-- the hypotheses-free statements are about non-trivial values: `1.2` includes `1`, `1.2 > 1` -/
+/-- T `trans_satisfiedBy`: Go's `ParsedConstraint.SatisfiedBy` (`none` = the error of an unparsable
+-- constraint version), translated, is the model's `Constraint.satisfiedBy` over the code's parser.
+theorem trans_satisfiedBy (p : Constraint) (v : Version) :
+    Generated.Trans.satisfiedBy p v = p.satisfiedBy Impl.parseVersion v := by
+  unfold Generated.Trans.satisfiedBy Constraint.satisfiedBy
+  by_cases h : p.version = []
+  · simp [h]
+  · cases hp : Impl.parseVersion p.version <;> simp [h, trans_satisfies]
+
+-- the hypotheses-free statements are about non-trivial values: `1.2` includes `1`, `1.2 > 1` -/
 example : Generated.Trans.satisfies .tilde ⟨[1, 2], 0, 0, 0, 0, 0, 0⟩ ⟨[1], 0, 0, 0, 0, 0, 0⟩ = true ∧
     Generated.Trans.satisfies .gt ⟨[1, 2], 0, 0, 0, 0, 0, 0⟩ ⟨[1], 0, 0, 0, 0, 0, 0⟩ = true ∧
     Generated.Trans.satisfies .lt ⟨[1, 2], 0, 0, 0, 0, 0, 0⟩ ⟨[1], 0, 0, 0, 0, 0, 0⟩ = false := by decide
